@@ -21,7 +21,7 @@ RULE = ("real SerialGateway / TCPGateway with real poll thread, reader thread an
         "send between the liveness test and the write, or the teardown ran while commands were queued; distinct = distinct "
         "(thread role, function, line) switch sequences")
 TIERS = {
-    "quick": {"runs": 5000, "max_wall": 240, "minimise_s": 25, "chunk": 100},
+    "quick": {"runs": 3500, "max_wall": 240, "minimise_s": 25, "chunk": 100},
     "thorough": {"runs": 300000, "max_wall": 3000, "minimise_s": 60, "chunk": 500},
 }
 FAULT_KINDS = ["read error", "user disconnect", "stop", "read error + reconnect", "peer close (tcp)", "peer reset (tcp)"]
